@@ -110,8 +110,138 @@ fn unit_table(cfg: &Cfg) -> &'static Vec<(usize, usize)> {
                 v.push((fi, c));
             }
         }
+        // effect-marker programs of C08 (bool arguments, i32 result, host calls)
+        let n = effect_bodies(cfg).len();
+        for c in 0..n.div_ceil(EFFECT_CHUNK) {
+            v.push((usize::MAX, c));
+        }
         v
     })
+}
+
+const EFFECT_CHUNK: usize = 120;
+
+/// quick: every fourth effect program (the slice rotates with VERIF_SEED);
+/// thorough: all of them
+fn effect_bodies(cfg: &Cfg) -> &'static Vec<Block> {
+    static C: std::sync::OnceLock<Vec<Block>> = std::sync::OnceLock::new();
+    C.get_or_init(|| {
+        let all = c08::cached(cfg.tier);
+        match cfg.tier {
+            Tier::Quick => all.iter().enumerate().filter(|(i, _)| (*i as u64 + cfg.seed) % 4 == 0).map(|(_, b)| b.clone()).collect(),
+            Tier::Thorough => all.clone(),
+        }
+    })
+}
+
+/// C08's effect programs: records, enums, lists, strings, match, loops, `?`
+/// and host calls in every position; four bool arguments, all 16 vectors.
+fn run_effects(c: usize, cx: &mut Cx) {
+    use roto::{NoCtx, TypedFunc};
+    let all = effect_bodies(&cx.cfg);
+    let lo = c * EFFECT_CHUNK;
+    let hi = (lo + EFFECT_CHUNK).min(all.len());
+    let (recs, enums, helpers) = c08::prelude();
+    let mut prog = Program { records: recs, enums, funcs: helpers };
+    for (i, b) in all[lo..hi].iter().enumerate() {
+        prog.funcs.push(c08::entry(&format!("f{i}"), b.clone()));
+    }
+    let rt = host::runtime();
+    let tree = roto::FileTree::test_file("c20e.roto", &print_program(&prog), 0);
+    let lowered = match vcore::util::catch(|| roto::verif::lower(tree, &rt)) {
+        Ok(Ok(l)) => l,
+        _ => {
+            cx.count("chunks_not_lowered", 1);
+            return;
+        }
+    };
+    let n = hi - lo;
+    let mut results: Vec<Vec<Option<(Option<Scalar>, Vec<Ev>)>>> = vec![];
+    for i in 0..n {
+        let mut row = vec![];
+        for v in 0..16u64 {
+            let bits = [v & 1 != 0, v & 2 != 0, v & 4 != 0, v & 8 != 0];
+            let args: Vec<V> = bits.iter().map(|b| V::Bool(*b)).collect();
+            if eval_fn(&prog, &format!("f{i}"), &args).is_err() {
+                cx.unspecified(1);
+                row.push(None);
+                continue;
+            }
+            let sub = ((i as u64) << 20) | (v << 1);
+            if !cx.case(sub) {
+                row.push(None);
+                continue;
+            }
+            host::clear_log();
+            let sargs: Vec<Scalar> = bits.iter().map(|b| Scalar::Bool(*b)).collect();
+            let name = format!("f{i}");
+            match vcore::util::catch(|| lowered.eval_named(&name, &sargs, false, 0)) {
+                Ok(ev) => {
+                    cx.count("eval_completed", 1);
+                    row.push(Some((ev.value, host::take_log())));
+                }
+                Err(m) => {
+                    host::clear_log();
+                    cx.count("eval_panicked", 1);
+                    cx.count(&format!("eval_panic[{}]", panic_class(&m)), 1);
+                    row.push(None);
+                }
+            }
+        }
+        results.push(row);
+    }
+    if !cx.case(SUB_SETUP) {
+        return;
+    }
+    let mut pkg = match vcore::util::catch(move || lowered.codegen()) {
+        Ok(p) => p,
+        Err(_) => {
+            cx.count("chunks_codegen_panicked", 1);
+            return;
+        }
+    };
+    for i in 0..n {
+        let f: TypedFunc<NoCtx, fn(bool, bool, bool, bool) -> i32> = match pkg.get_function(&format!("f{i}")) {
+            Ok(f) => f,
+            Err(_) => continue,
+        };
+        let src = print_func(&c08::entry("f", all[lo + i].clone()));
+        cx.states(1);
+        let mut reported = false;
+        let mut logs = std::collections::HashSet::new();
+        for v in 0..16u64 {
+            let Some((ev_val, ev_log)) = &results[i][v as usize] else { continue };
+            let bits = [v & 1 != 0, v & 2 != 0, v & 4 != 0, v & 8 != 0];
+            let sub = ((i as u64) << 20) | (v << 1) | 1;
+            if !cx.case(sub) {
+                continue;
+            }
+            host::clear_log();
+            let got = f.call(bits[0], bits[1], bits[2], bits[3]);
+            let log = host::take_log();
+            cx.transitions(1);
+            cx.validated(1);
+            logs.insert(format!("{log:?}"));
+            let same = *ev_val == Some(Scalar::I32(got)) && *ev_log == log;
+            if !same && !reported {
+                reported = true;
+                cx.violation(
+                    "eval-differs",
+                    sub,
+                    json!({"family": "effects", "program": src, "inputs": format!("{bits:?}")}),
+                    json!({"jit_value": got, "jit_log": format!("{log:?}")}),
+                    json!({"eval_value": format!("{ev_val:?}"), "eval_log": format!("{ev_log:?}")}),
+                );
+            }
+        }
+        if logs.len() > 1 {
+            cx.nontrivial(vcore::util::fnv_str(&src));
+        }
+        cx.outcome(vcore::util::fnv_str(&format!("{logs:?}")));
+        if i == 0 {
+            cx.sample(json!({"family": "effects", "program": src, "evaluations_completed": logs.len()}));
+        }
+    }
 }
 
 thread_local! {
@@ -161,6 +291,10 @@ impl Check for C20 {
     fn run_unit(&self, unit: usize, cx: &mut Cx) {
         cx.case(SUB_SETUP);
         let (fi, c) = unit_table(&cx.cfg)[unit];
+        if fi == usize::MAX {
+            run_effects(c, cx);
+            return;
+        }
         let f = c20_families(cx.cfg.tier)[fi].clone();
         let all = family_programs(fi, &cx.cfg);
         let lo = c * CHUNK;
@@ -310,6 +444,12 @@ impl Check for C20 {
     }
     fn describe(&self, cfg: &Cfg, unit: usize, sub: u64) -> Value {
         let (fi, c) = unit_table(cfg)[unit];
+        if fi == usize::MAX {
+            let all = effect_bodies(cfg);
+            let i = c * EFFECT_CHUNK + (sub >> 20) as usize;
+            return json!({"family": "effects", "program": all.get(i).map(|b| print_func(&c08::entry("f", b.clone()))),
+                          "input_vector": (sub & 0xFFFFF) >> 1});
+        }
         let f = c20_families(cfg.tier)[fi].clone();
         if sub == SUB_SETUP {
             return json!({"family": f.name, "chunk": c, "phase": "lower/codegen"});
